@@ -117,7 +117,7 @@ func drawC20(rt *rapid.T) C20Scenario {
 	for p := range head {
 		origin[p] = p
 	}
-	ncommits := 1 + g.pick("ncommits", 3)
+	ncommits := 1 + g.pick("ncommits", detsim.Scale(3, 5))
 	for c := 0; c < ncommits; c++ {
 		cm := Commit{Actor: "feature", Set: map[string]*File{}, Msg: fmt.Sprintf("feature %d", c)}
 		ks := sortedKeys(head)
